@@ -96,7 +96,7 @@ def gen(rng, tier):
     # ---- closing orders -------------------------------------------------------------------------
     for hv in ("1.1", "2"):
         for order in ("client_code", "client_nocode", "server", "eof", "reset", "server_then_client_silent", "client_code_echo_fails",
-                      "server_write_blocked_then_client", "stream_end"):
+                      "server_write_blocked_then_client", "stream_end", "stream_end_at_open"):
             codes = {"client_code": [1000, 1001, 3000, 4999], "server": [1000, 1001, 3999, 4000], "client_code_echo_fails": [1001, 3000, None],
                      "server_write_blocked_then_client": [1000, 1001]}.get(order, [None])
             for code in codes:
@@ -105,7 +105,7 @@ def gen(rng, tier):
                         continue
                     if order == "server_write_blocked_then_client" and hv == "2":
                         continue  # HTTP/1.1 carrier only (the write is held up at the transport)
-                    if order == "stream_end" and hv != "2":
+                    if order in ("stream_end", "stream_end_at_open") and hv != "2":
                         continue  # HTTP/2 carrier only: the client ends its side of the stream without a Close frame (RFC 8441 5: the TCP FIN of the tunnel)
                     cases.append(("close", hv, order, code, reason))
     # ---- requests that carry handshake fields but are not openings: no upgrade may be attempted ------------
@@ -177,7 +177,7 @@ def gen(rng, tier):
             yield _close_case(rng, n, *c[1:])
 
 
-def _h2_open(fb, path, ver, pr, ex, extra_key=None):
+def _h2_open(fb, path, ver, pr, ex, extra_key=None, end_stream=False):
     hdrs = [(b":method", b"CONNECT"), (b":protocol", b"websocket"), (b":scheme", b"http"), (b":path", path), (b":authority", b"ws.example")]
     if ver is not None:
         hdrs.append((b"sec-websocket-version", ver))
@@ -188,7 +188,7 @@ def _h2_open(fb, path, ver, pr, ex, extra_key=None):
     if extra_key:
         # not needed on HTTP/2, but allowed (a proxy translating an HTTP/1.1 handshake would carry it along)
         hdrs.append((b"sec-websocket-key", extra_key))
-    return client_preface(fb, {}) + fb.headers(1, hdrs, end_stream=False)
+    return client_preface(fb, {}) + fb.headers(1, hdrs, end_stream=end_stream)
 
 
 def _hs_case(rng, n, ver, key, conn, upg, hv, pr, ex, dec):
@@ -221,6 +221,8 @@ def _close_case(rng, n, hv, order, code, reason):
         script = _decision_script(("accept_then_close", code if code is not None else 1000, reason))
     else:
         script = _decision_script(("accept", None, None))
+    if order == "stream_end_at_open":
+        script = [["recv"], ["wait", "go"], ["send", {"type": "websocket.accept"}], ["recv_until_disconnect"]]  # decides after the END_STREAM has been seen
     apps = {"default": script, "websocket": script}
     steps = []
     if order in ("client_code", "client_code_echo_fails"):
@@ -231,7 +233,9 @@ def _close_case(rng, n, hv, order, code, reason):
         cf = None
     if hv == "2":
         fb = FrameBuilder()
-        client = [["feed", _h2_open(fb, path, b"13", None, None)], ["settle"]]
+        # (stream_end_at_open: the CONNECT itself carries END_STREAM - a tunnel whose client side is over before it began; should the
+        #  application accept it all the same, it is a connection that was lost)
+        client = [["feed", _h2_open(fb, path, b"13", None, None, end_stream=(order == "stream_end_at_open"))], ["settle"]]
         if cf is not None:
             if order == "client_code_echo_fails":
                 client += [["fail_write_at", 1]]
@@ -244,6 +248,8 @@ def _close_case(rng, n, hv, order, code, reason):
             client += [["eof"]]
         elif order == "stream_end":
             client += [["feed", fb.data(1, b"", end_stream=True)]]
+        elif order == "stream_end_at_open":
+            client += [["trigger", "go"], ["settle"]]
         else:
             client += [["reset"]]
         client.append(["settle"])
